@@ -1096,6 +1096,10 @@ class Generator:
         ex = Execution({'ops': []}, core.Stats())   # only its model side is used for tracking
         # seed molecule
         self.new_molecule(0, ff0, nrexcl0, rng.randint(1, 6))
+        if rng.random() < 0.25:
+            # an empty receiver that adopts the nrexcl of the first molecule merged into it
+            self.emit(['new', 2, ff0, None])
+            self.models[2] = MolModel(FFS[ff0], None)
         if rng.random() < 0.6:
             self.new_molecule(1, ff0 if rng.random() < 0.9 else 'B', nrexcl0 if rng.random() < 0.9 else 2,
                               rng.randint(0, 5))
@@ -1208,6 +1212,11 @@ class Generator:
                     m.remove_node(k)
         elif r < 0.54 and keys:
             it = self.interaction(rng, m)
+            existing = [(t, i) for t, items in m.inter.items() for i in items]
+            if existing and rng.random() < 0.15:
+                # a second term on the same atoms (e.g. multiple dihedral terms), same version
+                t, item = rng.choice(existing)
+                it = (t, list(item[0]), [rng.choice([1, 9]), rng.choice([0.1, 60.0, 2])], dict(item[2]))
             if it:
                 self.emit(['add_interaction', slot, it[0], it[1], it[2], it[3]])
                 if all(x in m.nodes for x in it[1]):
